@@ -32,7 +32,7 @@ def tok_equal(a, b, rtol=FLOAT_RTOL):
         y = Fraction(*map(int, b[2:].split("/")))
         if x == y:
             return True
-        return abs(x - y) <= Fraction(DEC_RTOL) * max(abs(x), abs(y))
+        return abs(x - y) <= Fraction(max(DEC_RTOL, rtol)) * max(abs(x), abs(y))
     return False
 
 
